@@ -8,11 +8,13 @@ holds at full strength; the model also lets a process issue further requests aft
 (`Choice.again`), which is where leaked globals would matter.
 
 Fault domain: `fail` is honoured at code generation, at the four phases of `ffibuilder.compile`, at
-`open(ready_name,'x')` (an error other than EEXIST) and at `fd.write(s)`/`fd.close()` of the marker.
-The last one breaks the property for the code as it is: the marker file exists, the `except` block
-renames the lock, nothing removes the marker.  `kill_safe` and "never poisons" are therefore proved
-for runs with a fault-free marker write (`ReachW`, `NoMWFail`: `..._partial`) and refuted for the
-full fault domain (`..._counterexample`, `stale_marker_never_rebuilt`).
+`open(tmp_name,'x')`, at `fd.write(s)`/`fd.close()` of the marker's temp file and at
+`os.replace(tmp_name, ready_name)`; `kill` everywhere.  Since /repo commit 101bdbe the marker is
+completed under a temporary name and moved into place in one step, so every theorem holds for this
+whole fault domain (before, a failing `fd.write` on the marker left a stale marker behind while the
+lock was released: every later request rebuilt and died with `FileExistsError`, and a concurrent
+one could import a `.so` that was being relinked; the first repair, removing the marker again,
+still let a waiter that had seen the short-lived marker import a relinked `.so`).
 
 `compile_forms` and `compile_expressions` share `get_cached_module`, `_compile_objects`,
 `_load_objects` and have the same `try/except` around `_compile_objects`: the model is one
@@ -25,20 +27,23 @@ namespace Ffcx.Jit
 set_option linter.unusedSimpArgs false
 
 /-- (`compile_forms` and `compile_expressions` alike: same `try/except` around `_compile_objects`.)
-If code generation or the C compiler fails - or creating / writing the ready marker - the
-request raises without touching the cache any further: it
-is in the `except` block (code generation) or in the `finally` block that restores the handlers and
-leads to the `except` block (C compiler, marker) (a); the `except` block renames the lock to `.failed` and
+If code generation or the C compiler fails - or creating / writing / publishing the ready marker -
+the request raises without touching the cache any further: it
+is in the `except` block (code generation), or in the `finally` block that restores the handlers and
+leads to the `except` block (C compiler, marker), or first in the inner `finally` that removes the
+marker's temp file (a); that step removes the temp file and nothing else (a'); the `except` block renames the lock to `.failed` and
 re-raises (b); and in the resulting state a newly arriving request — or the same process asking
 again — acquires the lock and builds afresh instead of waiting (c). -/
 theorem fail_releases_lock {s : Sys} (h : Reach s) (pid : Nat) (p : Proc)
     (hp : s.procs[pid]? = some p) :
     ((p.pc = .bGen ∨ p.pc = .bSrc ∨ p.pc = .bObj ∨ p.pc = .bLink1 ∨ p.pc = .bLink2 ∨
-        p.pc = .bMarkCreate ∨ p.pc = .bMarkWrite) →
+        p.pc = .bTmpCreate ∨ p.pc = .bTmpWrite ∨ p.pc = .bPublish) →
       (obs s pid .fail).res = .raise ∧ (step s pid .fail).fs = s.fs ∧
       ∃ q, (step s pid .fail).procs[pid]? = some q ∧
-        (q.pc = .bFail .gen ∨ q.pc = .bFailRestore .compile ∨ q.pc = .bFailRestore .markOpen ∨
-          q.pc = .bFailRestore .markWrite)) ∧
+        (q.pc = .bFail .gen ∨ (∃ cause, q.pc = .bFailRestore cause) ∨ (∃ cause, q.pc = .bTmpRemove cause))) ∧
+    (∀ cause : Cause, p.pc = .bTmpRemove cause → ∀ c : Choice, c ≠ .kill →
+      obs s pid c = ⟨.tmpRemove, .ok⟩ ∧ (step s pid c).fs = { s.fs with tmp := false } ∧
+      (step s pid c).procs[pid]? = some { p with pc := .bFailRestore cause }) ∧
     (∀ cause : Cause, p.pc = .bFailRestore cause → ∀ c : Choice, c ≠ .kill →
       obs s pid c = ⟨.restore, .unit⟩ ∧ (step s pid c).fs = s.fs ∧
       (step s pid c).procs[pid]? = some { p with pc := .bFail cause, g := userG }) ∧
@@ -51,19 +56,29 @@ theorem fail_releases_lock {s : Sys} (h : Reach s) (pid : Nat) (p : Proc)
           obs (step s pid c) j c' = ⟨.lock, .ok⟩ ∧
           (step (step s pid c) j c').procs[j]? = some { q with pc := .bGen }) := by
   have hi := inv_reach h
-  refine ⟨?_, ?_, ?_⟩
+  refine ⟨?_, ?_, ?_, ?_⟩
   · intro hpc
     have hs := step_procs_self s pid .fail p hp
     have hf := stepProc_fail s.timeout s.fs p hpc
     refine ⟨by rw [hs.2.2]; exact hf.2.2, by rw [hs.2.1]; exact hf.2.1, _, hs.1, ?_⟩
-    rcases hf.1 with h1 | h1 | h1 | h1
+    rcases hf.1 with h1 | h1 | ⟨cause, _, h1⟩
     · exact Or.inl h1.2
-    · exact Or.inr (Or.inl h1.2.2)
-    · exact Or.inr (Or.inr (Or.inl h1.2))
-    · exact Or.inr (Or.inr (Or.inr h1.2))
+    · exact Or.inr (Or.inl ⟨_, h1.2.2⟩)
+    · rw [h1]
+      cases s.fs.tmp
+      · exact Or.inr (Or.inl ⟨cause, by simp⟩)
+      · exact Or.inr (Or.inr ⟨cause, by simp⟩)
   · intro cause hpc c hc
     have hs := step_procs_self s pid c p hp
-    have hloc := (hi.loc pid p hp).2
+    have hstep : stepProc s.timeout s.fs p c =
+        ({ s.fs with tmp := false }, { p with pc := .bFailRestore cause }, ⟨.tmpRemove, .ok⟩) := by
+      obtain ⟨pc, g, saved, polls, tok⟩ := p
+      simp only at hpc; subst hpc
+      simp [stepProc, stepLive, Pc.terminal, hc]
+    exact ⟨by rw [hs.2.2, hstep], by rw [hs.2.1, hstep], by rw [hs.1, hstep]⟩
+  · intro cause hpc c hc
+    have hs := step_procs_self s pid c p hp
+    have hloc := (hi.loc pid p hp).2.2.2
     simp only [LocPc, hpc] at hloc
     have hstep : stepProc s.timeout s.fs p c =
         (s.fs, { p with pc := .bFail cause, g := userG }, ⟨.restore, .unit⟩) := by
@@ -101,60 +116,32 @@ example :
     (run s [(0, .none), (0, .none), (1, .none)]).procs.map (·.pc) = [.raised (.build .compile), .bGen] := by
   decide
 
-/-- Under EVERY fault (full strength): from every reachable state, along every continuation with
-arbitrary later requests (by new processes or by processes asking again) and arbitrary further
-faults, a request that is scheduled `timeout + 14` times without being re-issued has terminated; a
-`TimeoutError` is raised after exactly `timeout` polls; a polling waiter has polled fewer than
-`timeout` times; `ModuleNotFoundError` is never raised. -/
-theorem later_requests_terminate {s : Sys} (h : Reach s) (sch : List (Nat × Choice)) (j : Nat) (p : Proc)
-    (hp : (run s sch).procs[j]? = some p) :
-    (noRetry sch j → sched sch j ≥ s.timeout + 14 → p.pc.terminal = true) ∧
-    (p.pc = .raised .timeout → p.polls = s.timeout) ∧
-    (∀ i : Nat, p.pc = .wPoll i → i < s.timeout) ∧
-    p.pc ≠ .raised .notFound := by
-  have hi := inv_reach (reach_run h sch)
-  have hloc := (hi.loc j p hp).2
-  have hto := run_timeout s sch
-  refine ⟨fun hn hs => terminal_of_sched s sch j p hn hs hp, ?_, ?_, ?_⟩
-  · intro hpc
-    simp only [LocPc, hpc, hto] at hloc; exact hloc.1
-  · intro i hpc
-    simp only [LocPc, hpc, hto] at hloc; exact hloc.1
-  · intro hpc
-    simp only [LocPc, hpc] at hloc
-
-/- Full statement (FALSE for the code as it is, see `kill_safe_counterexample`):
-   theorem kill_safe {s : Sys} (h : Reach s) (sch : List (Nat × Choice)) ... (the six clauses below)
-   Missing: a failing `fd.write`/`fd.close` of the marker leaves a marker without a lock. -/
-
 /-- (`compile_forms` and `compile_expressions` alike.)
-Killed builders (and any other faults except a failing write/close of the marker): from every
-such reachable state, along every such continuation with arbitrary later requests (by new processes
-or by processes asking again), a request that is scheduled `timeout + 14` times without being
-re-issued has terminated; every import happens with a complete `.so`; whatever returned
-imported a complete `.so` - the one now on disk; a `TimeoutError` is raised after exactly `timeout`
-polls; a polling waiter has polled fewer than `timeout` times; `ModuleNotFoundError` is never
-raised.  Every kill choice at every step is covered. -/
-theorem kill_safe_partial {s : Sys} (h : ReachW s) (sch : List (Nat × Choice)) (hw : NoMWFail s sch)
-    (j : Nat) (p : Proc) (hp : (run s sch).procs[j]? = some p) :
-    (noRetry sch j → sched sch j ≥ s.timeout + 14 → p.pc.terminal = true) ∧
+Killed builders (and any other faults): from every reachable state, along every continuation
+with arbitrary later requests (by new processes or by processes asking again) and arbitrary further
+faults, a request that is scheduled `timeout + 16` times without being re-issued has terminated;
+every import happens with a complete `.so`; whatever returned imported a complete `.so` - the one
+now on disk; a `TimeoutError` is raised after exactly `timeout` polls; a polling waiter has polled
+fewer than `timeout` times; `ModuleNotFoundError` is never raised. -/
+theorem kill_safe {s : Sys} (h : Reach s) (sch : List (Nat × Choice)) (j : Nat) (p : Proc)
+    (hp : (run s sch).procs[j]? = some p) :
+    (noRetry sch j → sched sch j ≥ s.timeout + 16 → p.pc.terminal = true) ∧
     (p.pc.isLoad = true → (run s sch).fs.so = .complete) ∧
     (∀ (b : Bool) (so : So), p.pc = .done b so → so = .complete ∧ p.tok = (run s sch).fs.gen) ∧
     (p.pc = .raised .timeout → p.polls = s.timeout) ∧
     (∀ i : Nat, p.pc = .wPoll i → i < s.timeout) ∧
     p.pc ≠ .raised .notFound := by
-  have hS := invS_reachW (reachW_run h sch hw)
-  have hi := hS.inv
-  have hloc := (hi.loc j p hp).2
+  have hr := reach_run h sch
+  have hi := inv_reach hr
+  have hloc := (hi.loc j p hp).2.2.2
   have hto := run_timeout s sch
   refine ⟨fun hn hs => terminal_of_sched s sch j p hn hs hp, ?_, ?_, ?_, ?_, ?_⟩
   · intro hl
     obtain ⟨pc, g, saved, polls, tok⟩ := p
     cases pc <;> simp_all [Pc.isLoad, LocPc]
-    all_goals exact (hS.ginv hloc.1).1
+    all_goals exact (hi.ginv.1 hloc.1).1
   · intro b so hpc
-    have hst := (hS.strong j p hp).2
-    simp only [StrongPc, hpc] at hst; exact hst
+    simp only [LocPc, hpc] at hloc; exact ⟨hloc.1, hloc.2.1⟩
   · intro hpc
     simp only [LocPc, hpc, hto] at hloc; exact hloc.1
   · intro i hpc
@@ -163,9 +150,10 @@ theorem kill_safe_partial {s : Sys} (h : ReachW s) (sch : List (Nat × Choice)) 
     simp only [LocPc, hpc] at hloc
 
 /-- non-vacuity: the builder is killed while the linker is writing (partial `.so`, no marker): the
-later request polls `timeout` times and raises, it never imports; killed after the marker: the
-later request imports the complete module (also when the kill lands between `open(ready,'x')` and
-`fd.write`: the marker is empty, the build complete) -/
+later request polls `timeout` times and raises, it never imports; killed between creating the
+marker's temp file and moving it into place: a stray temp file, no marker, the later request times
+out as well; killed after the marker has been published: the later request imports the complete
+module -/
 example :
     let s := run (init 2 2) (List.replicate 6 (0, .none) ++ [(0, .kill)])
     s.fs = { lock := .source, so := .part, obj := true, gen := 1 } ∧
@@ -173,25 +161,24 @@ example :
   decide
 
 example :
-    let s := run (init 2 2) (List.replicate 9 (0, .none) ++ [(0, .kill)])
+    let s := run (init 2 2) (List.replicate 10 (0, .none) ++ [(0, .kill)])
+    s.fs = { lock := .source, so := .complete, obj := true, tmp := true, gen := 1 } ∧
+    (run s (List.replicate 3 (1, .none))).procs.map (·.pc) = [.dead, .raised .timeout] := by
+  decide
+
+example :
+    let s := run (init 2 2) (List.replicate 12 (0, .none) ++ [(0, .kill)])
     s.fs = { lock := .source, so := .complete, obj := true, marker := true, gen := 1 } ∧
     (run s (List.replicate 4 (1, .none))).procs.map (·.pc) = [.dead, .done false .complete] := by
   decide
 
-/-- The code as it is: the builder's `fd.write` on the marker raises (`staleMarker`), the next
-request rebuilds, and a third request imports the half-written `.so` through the stale marker. -/
-theorem kill_safe_counterexample :
-    let sch := staleMarker ++ List.replicate 6 (1, .none) ++ List.replicate 4 (2, .none)
-    Reach (run (init 3 2) sch) ∧
-    (run (init 3 2) sch).procs.map (·.pc) = [.raised (.build .markWrite), .bLink2, .done false .part] := by
-  exact ⟨reach_run (Reach.init 3 2) _, by decide⟩
-
 /-- The marker is written only after the compiler returned: the only step that creates
-`.c.cached` is the `open(ready,'x')` of a builder standing after a finished `ffibuilder.compile`
-(complete `.so`, source, object file) whose `redirect_stdout` block has been left. -/
+`.c.cached` is the `os.replace(tmp_name, ready_name)` of a builder standing after a finished
+`ffibuilder.compile` (complete `.so`, source, object file) whose `redirect_stdout` block has been
+left. -/
 theorem marker_after_compile {s : Sys} (h : Reach s) (pid : Nat) (c : Choice)
     (h0 : s.fs.marker = false) (h1 : (step s pid c).fs.marker = true) :
-    ∃ p : Proc, s.procs[pid]? = some p ∧ p.pc = .bMarkCreate ∧ obs s pid c = ⟨.markCreate, .ok⟩ ∧
+    ∃ p : Proc, s.procs[pid]? = some p ∧ p.pc = .bPublish ∧ obs s pid c = ⟨.publish, .ok⟩ ∧
       s.fs.so = .complete ∧ s.fs.lock = .source ∧ s.fs.obj = true ∧ p.g.stdout = .user := by
   have hi := inv_reach h
   cases hp : s.procs[pid]? with
@@ -202,14 +189,14 @@ theorem marker_after_compile {s : Sys} (h : Reach s) (pid : Nat) (c : Choice)
     have hs := step_procs_self s pid c p hp
     rw [hs.2.1] at h1
     have hm := stepProc_marks _ _ _ _ h0 h1
-    have hloc := (hi.loc pid p hp).2
-    simp only [LocPc, hm.1] at hloc
+    have hloc := (hi.loc pid p hp).2.2.2
+    simp only [LocPc, Built, hm.1] at hloc
     refine ⟨p, rfl, hm.1, by rw [hs.2.2]; exact hm.2, hloc.2.2.2.2, hloc.2.2.1, hloc.2.2.2.1, ?_⟩
     rw [hloc.1]
 
-/-- non-vacuity: the ninth step of a lone builder writes the marker -/
+/-- non-vacuity: the twelfth step of a lone builder publishes the marker -/
 example :
-    let s := run (init 1 3) (List.replicate 8 (0, .none))
+    let s := run (init 1 3) (List.replicate 11 (0, .none))
     s.fs.marker = false ∧ (step s 0 .none).fs.marker = true := by
   decide
 
@@ -225,7 +212,7 @@ def Pc.finished : Pc → Bool
 
 /-- Process-global state is left as it was found: in every reachable state (any interleaving, any
 fail/kill choices, any re-issued requests), for EVERY exit point of `_compile_objects` — normal,
-code generation failed, C compiler failed, marker creation or marker write failed — the root logger's handlers and
+code generation failed, C compiler failed, creating / writing / publishing the marker failed — the root logger's handlers and
 `sys.stdout` equal their entry values; every request that has returned or raised (for whatever
 reason, builder or waiter) leaves the process with its initial globals; hence every request,
 including one issued by a process whose previous request failed, starts with the user's globals. -/
@@ -233,7 +220,7 @@ theorem globals_restored {s : Sys} (h : Reach s) (i : Nat) (p : Proc) (hp : s.pr
     (p.pc.exitedCompileObjects = true → p.g = userG) ∧
     (p.pc.finished = true → p.g = userG) ∧
     (p.pc = .idle → p.g = userG) := by
-  have hloc := ((inv_reach h).loc i p hp).2
+  have hloc := ((inv_reach h).loc i p hp).2.2.2
   obtain ⟨pc, g, saved, polls, tok⟩ := p
   cases pc <;> simp_all [Pc.exitedCompileObjects, Pc.finished, LocPc, FailG]
   case raised e => cases e <;> simp_all [LocPc, FailG]
@@ -250,88 +237,72 @@ example :
     (run (init 1 3) (failThenRetry.take 6)).procs = [{ pc := .raised (.build .compile), saved := userG }] ∧
     (run (init 1 3) (failThenRetry.take 6)).fs = { lock := .absent, failed := true } ∧
     (run (init 1 3) failThenRetry).procs = [{ pc := .idle, saved := userG }] ∧
-    (run (init 1 3) (failThenRetry ++ List.replicate 13 (0, .none))).procs =
+    (run (init 1 3) (failThenRetry ++ List.replicate 15 (0, .none))).procs =
       [{ pc := .done true .complete, saved := userG, tok := 1 }] ∧
-    (run (init 1 3) (List.replicate 11 (0, .none))).procs = [{ pc := .bFind, saved := userG }] ∧
+    (run (init 1 3) (List.replicate 13 (0, .none))).procs = [{ pc := .bFind, saved := userG }] ∧
     (run (init 1 3) [(0, .none), (0, .fail), (0, .none)]).procs = [{ pc := .raised (.build .gen) }] ∧
-    (run (init 1 3) staleMarker).procs = [{ pc := .raised (.build .markWrite), saved := userG }] := by
+    (run (init 1 3) failedMarkerWrite).procs = [{ pc := .raised (.build .tmpWrite), saved := userG }] := by
   decide
 
-/- Full statement (FALSE for the code as it is, see `no_poison_counterexample` and
-   `stale_marker_never_rebuilt`): the same for every `Reach s`. -/
-
-/-- A failed build never poisons later requests - in every state reachable with any interleaving and
-any fail/kill choices other than a failing write/close of the marker: no request is ever failed by
-`FileExistsError` at `open(ready_name,'x')` (a); where there is no lock there is no marker, so
-whoever acquires the lock builds into a directory without a marker (b); and a builder standing at
-`open(ready_name,'x')` creates the marker (c). -/
-theorem no_poison_partial {s : Sys} (h : ReachW s) :
-    (∀ (i : Nat) (p : Proc), s.procs[i]? = some p →
-      p.pc ≠ .bFailRestore .marker ∧ p.pc ≠ .bFail .marker ∧ p.pc ≠ .raised (.build .marker)) ∧
-    (s.fs.lock = .absent → s.fs.marker = false) ∧
-    (∀ (i : Nat) (p : Proc), s.procs[i]? = some p → p.pc = .bMarkCreate →
-      ∀ c : Choice, c ≠ .kill → c ≠ .fail → obs s i c = ⟨.markCreate, .ok⟩) := by
-  have hS := invS_reachW h
+/-- A failed build never poisons later requests - in every reachable state, whatever failed or was
+killed (including a failing write of the marker): no request is ever failed by a `FileExistsError`,
+neither at `open(tmp_name,'x')` nor at the `ready_name.exists()` check (a); where there is no lock
+there is neither a marker nor a temp file, so whoever acquires the lock builds into a clean
+directory (b) - a stray temp file is only ever left by a killed builder, together with its lock;
+a builder standing at `open(tmp_name,'x')` creates the file, and one standing at the marker check
+finds no marker (c). -/
+theorem no_poison {s : Sys} (h : Reach s) :
+    (∀ (i : Nat) (p : Proc) (c : Cause), s.procs[i]? = some p →
+      (p.pc = .bTmpRemove c ∨ p.pc = .bFailRestore c ∨ p.pc = .bFail c ∨ p.pc = .raised (.build c)) →
+      c ≠ .marker ∧ c ≠ .tmpExists) ∧
+    (s.fs.lock = .absent → s.fs.marker = false ∧ s.fs.tmp = false) ∧
+    (∀ (i : Nat) (p : Proc), s.procs[i]? = some p → ∀ c : Choice, c ≠ .kill → c ≠ .fail →
+      (p.pc = .bTmpCreate → obs s i c = ⟨.tmpCreate, .ok⟩) ∧
+      (p.pc = .bMarkCheck → obs s i c = ⟨.markCheck, .false_⟩)) := by
+  have hi := inv_reach h
   refine ⟨?_, ?_, ?_⟩
-  · intro i p hp
-    have hst := (hS.strong i p hp).2
-    refine ⟨?_, ?_, ?_⟩ <;> intro hpc <;> simp [StrongPc, hpc] at hst
+  · intro i p c hp hpc
+    have hloc := (hi.loc i p hp).2.2.2
+    rcases hpc with hpc | hpc | hpc | hpc <;> simp only [LocPc, FailG, hpc] at hloc
+    · exact hloc.2.2
+    · exact hloc.2.2
+    · exact hloc.2
+    · exact hloc.2
   · intro hl
-    cases hm : s.fs.marker with
-    | false => rfl
-    | true => have := (hS.ginv hm).2.1; rw [hl] at this; cases this
-  · intro i p hp hpc c hk hf
-    have hm := (hS.strong i p hp).1 (by rw [hpc]; rfl)
+    constructor
+    · cases hm : s.fs.marker with
+      | false => rfl
+      | true => have := (hi.ginv.1 hm).2.1; rw [hl] at this; cases this
+    · cases hm : s.fs.tmp with
+      | false => rfl
+      | true => exact absurd hl (hi.ginv.2 hm)
+  · intro i p hp c hk hf
+    have hl := hi.loc i p hp
     rw [(step_procs_self s i c p hp).2.2]
     obtain ⟨pc, g, saved, polls, tok⟩ := p
-    simp only at hpc; subst hpc
-    simp [stepProc, stepLive, Pc.terminal, hk, hf, hm]
+    constructor
+    · intro hpc
+      simp only at hpc; subst hpc
+      have ht := hl.2.2.1 rfl
+      simp [stepProc, stepLive, Pc.terminal, hk, hf, ht]
+    · intro hpc
+      simp only at hpc; subst hpc
+      have hm := hl.2.1 rfl
+      simp [stepProc, stepLive, Pc.terminal, hk, hf, hm]
 
-/-- The code as it is (`staleMarker`: the builder's `fd.write` on the marker raises): a reachable
-state with the marker present and no lock; request 1 then acquires the lock, regenerates, recompiles
-and relinks everything, dies with `FileExistsError` at `open(ready_name,'x')` and renames its lock -
-the directory is as before; so does request 2; so does the process of request 0 asking again. -/
-theorem no_poison_counterexample :
-    let builder (i : Nat) : List (Nat × Choice) := List.replicate 11 (i, .none)
-    Reach (run (init 3 2) staleMarker) ∧
-    (run (init 3 2) staleMarker).fs =
-      { lock := .absent, so := .complete, obj := true, marker := true, failed := true, gen := 1 } ∧
-    (run (init 3 2) (staleMarker ++ builder 1)).procs.map (·.pc) =
-      [.raised (.build .markWrite), .raised (.build .marker), .idle] ∧
-    (run (init 3 2) (staleMarker ++ builder 1)).fs =
-      { lock := .absent, so := .complete, obj := true, marker := true, failed := true, gen := 2 } ∧
-    (run (init 3 2) (staleMarker ++ builder 1 ++ builder 2 ++ (0, .again) :: builder 0)).procs.map (·.pc) =
-      [.raised (.build .marker), .raised (.build .marker), .raised (.build .marker)] ∧
-    (run (init 3 2) (staleMarker ++ builder 1 ++ builder 2 ++ (0, .again) :: builder 0)).nCompile = 4 := by
-  exact ⟨reach_run (Reach.init 3 2) _, by decide, by decide, by decide, by decide, by decide⟩
-
-/-- Poisoned forever: from every reachable state with the marker present and no lock, along EVERY
-continuation (any requests, any faults): the marker stays, no request ever again gets beyond
-`open(ready_name,'x')` (none is ever in the states after a marker creation of its own, so no build
-ever completes and no builder ever returns), and every builder that reaches that `open` raises
-`FileExistsError`. -/
-theorem stale_marker_never_rebuilt {s : Sys} (h : Reach s) (hm : s.fs.marker = true)
-    (hl : s.fs.lock = .absent) (sch : List (Nat × Choice)) :
-    (run s sch).fs.marker = true ∧
-    ∀ (i : Nat) (p : Proc), (run s sch).procs[i]? = some p →
-      p.pc.postMark = false ∧
-      (p.pc = .bMarkCreate → obs (run s sch) i .none = ⟨.markCreate, .exists_⟩) := by
-  have hi := inv_reach h
-  have h0 : ∀ (i : Nat) (p : Proc), s.procs[i]? = some p → p.pc.postMark = false := by
-    intro i p hp
-    have hb := (hi.loc i p hp).1
-    cases hpm : p.pc.postMark with
-    | false => rfl
-    | true =>
-      have : p.pc.isB = true := by
-        revert hpm; cases p.pc <;> simp [Pc.postMark, Pc.isB]
-      exact absurd hl (hb this)
-  have hr := run_stale s sch hm h0
-  refine ⟨hr.1, fun i p hp => ⟨hr.2 i p hp, ?_⟩⟩
-  intro hpc
-  rw [(step_procs_self (run s sch) i .none p hp).2.2]
-  obtain ⟨pc, g, saved, polls, tok⟩ := p
-  simp only at hpc; subst hpc
-  simp [stepProc, stepLive, Pc.terminal, hr.1, Proc.markRaises]
+/-- non-vacuity / regression (the former stale-marker and withdrawn-marker schedules): the builder's
+`fd.write` on the marker raises; the directory is left without marker, temp file and lock; request 1
+rebuilds successfully; request 2 and the process of request 0, asking again, reuse its module. -/
+example :
+    let builder (i : Nat) : List (Nat × Choice) := List.replicate 15 (i, .none)
+    (run (init 3 2) failedMarkerWrite).fs = { so := .complete, obj := true, failed := true, gen := 1 } ∧
+    (run (init 3 2) (failedMarkerWrite ++ builder 1)).procs.map (·.pc) =
+      [.raised (.build .tmpWrite), .done true .complete, .idle] ∧
+    (run (init 3 2) (failedMarkerWrite ++ builder 1 ++ List.replicate 4 (2, .none) ++
+        (0, .again) :: List.replicate 4 (0, .none))).procs.map (fun p => (p.pc, p.tok)) =
+      [(.done false .complete, 2), (.done true .complete, 2), (.done false .complete, 2)] ∧
+    (run (init 3 2) (failedMarkerWrite ++ builder 1 ++ List.replicate 4 (2, .none) ++
+        (0, .again) :: List.replicate 4 (0, .none))).nCompile = 2 := by
+  decide
 
 end Ffcx.Jit
